@@ -461,6 +461,94 @@ func c10Jobs(thorough bool) []c10Job {
 			}})
 		}
 	}
+	// (g2) long argument lists (4..6) for the variadic type constructors, over a pool that makes the first arguments
+	// well-formed so that checks of later positions are reached (tagged unions pair tags with struct types)
+	{
+		pool := []string{"/a", "/b", "fn:Struct()", "fn:Struct(/x, /number)", "/number"}
+		for _, ct := range []string{"fn:TaggedUnion", "fn:Struct", "fn:Union", "fn:Tuple", "fn:Fun", "fn:Map", ".TaggedUnion", ".Struct"} {
+			ct := ct
+			jobs = append(jobs, c10Job{"type-grid long " + ct, func(probe func(kind, input string)) {
+				var rec func(cur []string)
+				rec = func(cur []string) {
+					if len(cur) >= 4 {
+						t := ct + "(" + strings.Join(cur, ", ") + ")"
+						if strings.HasPrefix(ct, ".") {
+							// the angle-bracket syntax: key : type pairs after an optional leading tag field
+							t = ct + "<" + strings.Join(cur, ", ") + ">"
+						}
+						probe("unit", "Decl foo(X) bound ["+t+"].\nfoo({/a: /b}).\n")
+						probe("unit", "Decl foo(X) bound [fn:List("+t+"), /number].\nDecl bar(X) bound [/any].\nbar(X) :- foo(X).\n")
+					}
+					if len(cur) == 6 || (len(cur) == 5 && !thorough) {
+						return
+					}
+					for _, a := range pool {
+						rec(append(append([]string{}, cur...), a))
+					}
+				}
+				rec(nil)
+			}})
+		}
+	}
+	// (g3) pairs of types: two declared predicates joined on one variable (the meet of their bounds is computed), a
+	// rule copying from one to the other (conformance is judged) and a union of both in one bound
+	{
+		var types []string
+		for _, ct := range []string{"fn:List", "fn:Pair", "fn:Map", "fn:Struct", "fn:Tuple", "fn:Union", "fn:Option", "fn:Fun", "fn:TaggedUnion", "fn:Singleton"} {
+			for _, al := range []string{"", "/number", "/a", "/number, /string", "/a, /number", "/number, /string, /string", "/a, /number, /b", "/a, /b, fn:Struct()", "/a, /b, fn:Struct(), /c, fn:Struct(/x, /number)", "/a, fn:List(/number)", "fn:Union(/number, /string, /a), fn:Union(/number, /string)"} {
+				types = append(types, ct+"("+al+")")
+			}
+		}
+		types = append(types, "/number", "/a", "/any", "/name", "/string")
+		for i := range types {
+			i := i
+			jobs = append(jobs, c10Job{"type-pair grid " + types[i], func(probe func(kind, input string)) {
+				for j := range types {
+					t1, t2 := types[i], types[j]
+					probe("unit", "Decl p(X) bound ["+t1+"].\nDecl q(X) bound ["+t2+"].\nDecl r(X) bound [/any].\nr(X) :- p(X), q(X).\n")
+					probe("unit", "Decl p(X) bound ["+t1+"].\nDecl q(X) bound ["+t2+"].\nq(X) :- p(X).\n")
+					if j >= i {
+						probe("unit", "Decl p(X) bound [fn:Union("+t1+", "+t2+")].\nDecl q(X) bound ["+t1+"] bound ["+t2+"].\nq(X) :- p(X).\np(X) :- q(X).\n")
+					}
+				}
+			}})
+		}
+	}
+	// (f2) built-in functions applied to composite literals whose elements have different types (the type of such
+	// a literal is a union; type inference unifies unions of different widths)
+	{
+		var fnSyms []string
+		seen := map[string]bool{}
+		for f := range builtin.Functions {
+			seen[f.Symbol] = true
+		}
+		for f := range builtin.ReducerFunctions {
+			seen[f.Symbol] = true
+		}
+		for f := range seen {
+			fnSyms = append(fnSyms, f)
+		}
+		sort.Strings(fnSyms)
+		lits := []string{"[1, 2.5, \"a\"]", "[1, \"a\"]", "[]", "[[1], [\"a\", 2.5, /a]]", "{/a: 1, /b: \"s\"}", "[1: \"a\", \"b\": 2]", "fn:pair(1, \"a\")", "2.5", "X", "[X, 2.5, /a]"}
+		for _, fsym := range fnSyms {
+			fsym := fsym
+			jobs = append(jobs, c10Job{"builtin-grid mixed literals " + fsym, func(probe func(kind, input string)) {
+				var argLists []string
+				for _, a := range lits {
+					argLists = append(argLists, a)
+					for _, b := range lits {
+						argLists = append(argLists, a+", "+b)
+					}
+				}
+				for _, al := range argLists {
+					app := fsym + "(" + al + ")"
+					probe("unit", "foo(Y) :- Y = "+app+".\n")
+					probe("unit", "bar(1).\nbar(\"s\").\nfoo(Y) :- bar(X), Y = "+app+".\n")
+					probe("unit", "Decl bar(X) bound [/number].\nbar(1).\nfoo(Y) :- bar(X) |> let Y = "+app+".\n")
+				}
+			}})
+		}
+	}
 	// (i) merge-predicate grid: a predicate with a functional dependency and a merge descriptor over every choice of
 	// source, target and merged columns, a deferred merge predicate of arity 3 or 5, and rules that derive facts agreeing
 	// on the source columns
@@ -660,6 +748,6 @@ func c10(r *rt.Run) {
 	})
 	r.Extra["states"] = r.Get("evaluations")
 	r.Finish("(a) every token string of length <= k over a 49-token alphabet (k=3 quick, 4 thorough) and k+1 over a 29-token alphabet, offered to Unit/Clause/Term/LiteralOrFormula/PredicateName/Atom/BaseTerm; " +
-		"(b) every single-token deletion/duplication/replacement, every truncation and byte substitution of 19 valid sources (examples/*.mg + 3 inline; the quick tier leaves out the 9 KB flow_checking.mg); (c) every string <= 4 over 10 characters through ast.Unescape; (f) a built-in grid: every built-in function with every argument list of length <=3 over 5 argument forms in head / equality / let / reducer position and every built-in predicate with every argument list of length <=3 over 7 forms, plain and negated, x declarations x facts; (g) a type-expression grid: 12 constructors x every argument list of length <=3 over 9 forms x 6 values; (h) extreme literals in 12 templates; (i) a merge-predicate grid (8x8x8 column choices x 4 merge-predicate declarations); (e) a declaration grid: arity 0-3 x every pair of 33 descriptor items x 13 bound/inclusion forms x 4 continuations; " +
+		"(b) every single-token deletion/duplication/replacement, every truncation and byte substitution of 19 valid sources (examples/*.mg + 3 inline; the quick tier leaves out the 9 KB flow_checking.mg); (c) every string <= 4 over 10 characters through ast.Unescape; (f) a built-in grid: every built-in function with every argument list of length <=3 over 5 argument forms in head / equality / let / reducer position and every built-in predicate with every argument list of length <=3 over 7 forms, plain and negated, x declarations x facts; (g) a type-expression grid: 12 constructors x every argument list of length <=3 over 9 forms x 6 values; (g2) 8 variadic constructors x every argument list of length 4-5 (thorough 6) over 5 forms; (g3) every ordered pair of 115 type expressions as the bounds of two predicates that a rule joins, copies and unites; (f2) every built-in function over 1-2 composite literals with mixed element types; (h) extreme literals in 12 templates; (i) a merge-predicate grid (8x8x8 column choices x 4 merge-predicate declarations); (e) a declaration grid: arity 0-3 x every pair of 33 descriptor items x 13 bound/inclusion forms x 4 continuations; " +
 		"(d) line deletions/duplications/blankings/replacements, digit replacements and truncations of 6 fact files, plain/gzip/zstd; units that parse go on to AnalyzeAndCheckBounds and EvalProgram under a fact limit; non-trivial = inputs that parse as a unit")
 }
